@@ -42,12 +42,14 @@ Definition hash_select_triangular (av : list bool) (h : N) : option nat :=
   let n := length av in
   probe_seq av (tri_idxs (N.of_nat n) (h mod N.of_nat n) 0 n).
 
-(* RoundRobin: robin is a uint32 incremented before each probe *)
+(* RoundRobin: robin is a uint32; before each probe it is advanced by one (uint32 addition) and
+   reduced modulo the pool length, `r.robin = (r.robin + 1) % poolLen`, and the slot probed is the
+   counter itself (poolLen = uint32(len(pool)): the theorems take pools of fewer than 2^32 hosts) *)
 Fixpoint rr_loop (av : list bool) (n : N) (robin : N) (steps : nat) : option nat * N :=
   match steps with
   | O => (None, robin)
-  | S k => let robin' := (robin + 1) mod U32 in
-           let i := N.to_nat (robin' mod n) in
+  | S k => let robin' := ((robin + 1) mod U32) mod n in
+           let i := N.to_nat robin' in
            if nth i av false then (Some i, robin') else rr_loop av n robin' k
   end.
 Definition rr_select (av : list bool) (robin : N) : option nat * N :=
@@ -147,9 +149,10 @@ Fixpoint retry (fuel : nat) (mark : bool) (k : nat) (st : S) (base failed : list
   end.
 End Retry.
 
-(* request body as seen by attempt number k: rewound iff buffered *)
+(* request body as seen by attempt number k: rewound iff buffered; it is buffered whenever the
+   request can be retried, whatever the number of hosts *)
 Definition buffered (nhosts : nat) (try_duration_nonzero : bool) : bool :=
-  Nat.ltb 1 nhosts && try_duration_nonzero.
+  try_duration_nonzero.
 Definition attempt_body {A} (buf : bool) (body : list A) (consumed_before : nat) : list A :=
   if buf then body else skipn consumed_before body.
 
@@ -166,8 +169,9 @@ Definition attempt_body {A} (buf : bool) (body : list A) (consumed_before : nat)
    The budget is measured ONLY there, i.e. after a failed attempt / a nil Select / a refusal.
    The outcome of the k-th use of a host is scripted (fault sequence per host, with a default
    for the tail).  The request body is buffered and rewound before every attempt iff
-   hosts > 1 && try_duration != 0; an unbuffered body is closed by the first attempt that runs
-   (RoundTripper contract), every later attempt that reads it gets nothing.  A scripted success
+   try_duration != 0 (i.e. whenever there can be a second attempt); an unbuffered body is closed by
+   the first attempt that runs (RoundTripper contract), every later attempt that reads it would get
+   nothing.  A scripted success
    only succeeds if the complete body arrived (a backend does not answer a truncated upload). *)
 Inductive akind := KOk | KFailBefore | KFailAfter | KRefuse.
 Record astep := mk_astep { ak : akind; adur : N }.
@@ -177,8 +181,8 @@ Definition is_refuse (k : akind) : bool := match k with KRefuse => true | _ => f
 Definition is_ok (k : akind) : bool := match k with KOk => true | _ => false end.
 
 Record tcfg := mk_tcfg { t_n : nat; t_mf : N; t_ft : N; t_td : N; t_ti : N; t_hasbody : bool }.
-(* requiresBuffering := upstream.GetHostCount() > 1 && upstream.GetTryDuration() != 0 *)
-Definition t_buf (c : tcfg) : bool := Nat.ltb 1 (t_n c) && negb (t_td c =? 0).
+(* requiresBuffering := upstream.GetTryDuration() != 0 *)
+Definition t_buf (c : tcfg) : bool := negb (t_td c =? 0).
 
 (* what a forward saw of the request body *)
 Inductive rxk := RxNotRead | RxFull | RxClosed | RxBad.
@@ -274,11 +278,6 @@ Fixpoint skip_ok (mf ft : N) (acc : nat -> list N) (tr : list tev) : bool :=
 Definition rx_good (rx : rxk) : bool := match rx with RxClosed | RxBad => false | _ => true end.
 Definition bodies_ok (tr : list tev) : bool :=
   forallb (fun e => match e with EAttempt _ _ _ rx _ _ => rx_good rx | _ => true end) tr.
-Definition first_attempt_ok (tr : list tev) : bool :=
-  match filter (fun e => match e with EAttempt _ _ _ _ _ _ => true | _ => false end) tr with
-  | EAttempt _ _ _ rx _ _ :: _ => rx_good rx
-  | _ => true
-  end.
 (* the final status against the last event *)
 Definition answered_ok (n : nat) (unh : nat -> bool) (tr : list tev) (o : tout) : bool :=
   match o with
@@ -528,11 +527,9 @@ Definition judge (c : case) : N :=
         (* failed hosts are skipped until their failure expires; Select finds a host whenever one is available *)
         skip_ok (t_mf c) (t_ft c) fx0 obs &&
         none_ok n (t_mf c) (t_ft c) unh env 0 fx0 obs &&
-        (* every attempt receives the complete original body when it is buffered *)
-        (* ("with retries enabled (non-zero try_duration and fail_timeout) ... every attempt receiving
-           the complete original body": also demanded of the single-host pool, which is not buffered) *)
-        (negb (negb (t_hasbody c) || t_buf c || (negb (t_td c =? 0) && negb (t_ft c =? 0))) || bodies_ok obs) &&
-        first_attempt_ok obs &&
+        (* every attempt receives the complete original body, whatever the pool size and the
+           configuration (without retries there is only one attempt) *)
+        bodies_ok obs &&
         (* 200 only from a successful forward to a host that is not unhealthy, 502 only after failures *)
         answered_ok n unh obs obs_out &&
         (* a healthy backend exists and the budget covers the others => answered *)
